@@ -53,6 +53,17 @@ CHECKS = {
              'listed in known_findings.json (num_terms=0 error-array length).',
         technique=TECH + ' (QF_LRA)',
         design='3/C07'),
+    'C10': dict(
+        text='Solver verdicts on the real step generators: Basic{Max,Min}StepGenerator with symbolic base step and ratio '
+             '(closed form, order, strict geometric decrease, nothing for a zero base); Min/MaxStepGenerator with symbolic x and '
+             'base (nominal step max(log(1.718+|x|),1) with log uninterpreted, user nominal step, documented defaults); counting '
+             'logic and the coupling default-count >= rule length for UNBOUNDED n, order (CrossHair, confirmed over all paths); '
+             'make_exact in float64 (z3 FP); CStepGenerator radial/spiral closed form, default count, path guard; default_scale '
+             'against a closed-form table (n, order <= 10).',
+        note='Trusted: z3, CrossHair; exact arithmetic except the make_exact lemma; non-binary ratios compared up to 8 eps (float '
+             'power rounding). The default_scale table is a configuration table (enumerated, not symbolic).',
+        technique=TECH + ' (QF_UFNRA), CrossHair for the integer counting logic, z3 FP for make_exact',
+        design='3/C10'),
     'C13': dict(
         text='Bounded solver verdict on the real dea3 executed on symbolic arrays: for ALL real inputs abserr>=0 and '
              'abserr>=|result-v2| (hence honest against any X the inputs are within t of), element independence, inputs '
